@@ -25,7 +25,7 @@ SAFE_VDIMS = {
     4: [None, ["a", "b", "c", "d"], ["v_0", "v_1", "v_2", "v_3"]],
     5: [None, ["a", "b", "c", "d", "e"]],
 }
-UNITS = [None, None, "A/m", "T", "J/m3", "rad", "V:s"]
+UNITS = [None, None, "A/m", "T", "J/m3", "rad", "V:s", "1", "%", "1/m"]
 SPECIALS8 = [0.0, -0.0, 5e-324, 1.7976931348623157e308, -1.7976931348623157e308, 2.2250738585072014e-308, 1.0, -1.0]
 SPECIALS4 = [0.0, -0.0, 1e-45, 3.4028234663852886e38, -3.4028234663852886e38, 1.1754943508222875e-38, 1.0]
 
@@ -166,7 +166,7 @@ class StoreProfile(Profile):
         if nvdim in self.PUNCT_VDIMS and rng.random() < 0.12:
             vd = rng.choice(self.PUNCT_VDIMS[nvdim])  # "any labels without spaces": punctuation is allowed in a label
         if nvdim == 1 and self.fmt in ("hdf5", "vtk") and rng.random() < 0.25:
-            vd = rng.choice([["T"], ["m_z"], ["rho"]])  # a one-component field may carry a label too
+            vd = rng.choice([["T"], ["m_z"], ["rho"], ["None"], ["x"]])  # a one-component field may carry a label too
         o = {"op": "mkfield", "out": out, "mesh": mesh, "nvdim": nvdim, "vdims": vd, "unit": rng.choice(UNITS)}
         if nvdim > 1 and rng.random() < 0.3:
             # a permuted or partial component-to-axis mapping, keys written in any order; resolved against
@@ -180,6 +180,8 @@ class StoreProfile(Profile):
 
     def values_for(self, rng, rep):
         r = rng.random()
+        if r < 0.06:
+            return {"kind": "zeros", "seed": rng.randrange(2**31)}  # nothing but +0.0 and -0.0
         if r < 0.45:
             return {"kind": "idx", "step": rng.choice([1.0, 0.5, -3.0, 1e-3]), "offset": rng.choice([0.0, -11.0])}
         if rep == "bin4":
@@ -421,7 +423,7 @@ class Hdf5Profile(StoreProfile):
                 o["mesh"].pop("intsubs", None)
                 o["valid"] = None
                 st.stats.probe("large_field")
-            o["value"] = {"kind": "idx", "step": rng.choice([1.0, 0.5])} if rng.random() < 0.5 else {"kind": "wide", "seed": rng.randrange(2**31), "emax": 300 if o["dtype"] != "int" else 8, "specials": rng.sample(SPECIALS8, 3) if o["dtype"] is None else []}
+            o["value"] = {"kind": "zeros", "seed": rng.randrange(2**31)} if rng.random() < 0.06 else {"kind": "idx", "step": rng.choice([1.0, 0.5])} if rng.random() < 0.5 else {"kind": "wide", "seed": rng.randrange(2**31), "emax": 300 if o["dtype"] != "int" else 8, "specials": rng.sample(SPECIALS8, 3) if o["dtype"] is None else []}
             o["valid"] = {"kind": "mask", "seed": rng.randrange(2**31), "p": rng.choice([0.2, 0.7])} if rng.random() < 0.6 else None
             if rng.random() < 0.15 and o["nvdim"] > 1:
                 o["vdims"] = None
